@@ -352,7 +352,11 @@ fn gen_seq(rng: &mut Rng, flavour: &str, cap: usize, thorough: bool) -> Vec<Vec<
   for i in 0..n {
     let late = (i * 100) / n;
     let malformed = rng.chance(7);
-    let cat = rng.weighted(&[36, 36, 10, 6 + late / 8]);
+    // steer towards operations that succeed: send when there is room, receive when there is something
+    let room = st.room();
+    let avail = if st.f.spmc { st.r.iter().filter(|h| h.alive).map(|h| h.lag).max().unwrap_or(0) } else { st.len };
+    let (ws, wr) = if avail == 0 && room > 0 { (52, 20) } else if room == 0 && avail > 0 { (20, 52) } else { (36, 36) };
+    let cat = rng.weighted(&[ws, wr, 10, 6 + late / 8]);
     let op = match cat {
       0 => seq_send(&mut st, rng, malformed),
       1 => seq_recv(&mut st, rng, malformed),
